@@ -6,7 +6,8 @@
 //! transfer frames, the all-1-byte partition, an empty-payload frame at every position x the 8 choices of
 //! {delivery-id, delivery-tag, message-format} repeated/omitted on continuation frames x a second link's
 //! 2-frame delivery interleaved at every position x abort at every position followed by a normal delivery
-//! x contradictory continuation fields.
+//! x contradictory continuation fields (on a middle / the last frame) x what follows them on the same link
+//! (nothing, a 1-frame delivery, a 2-frame delivery, two deliveries).
 //!
 //! An application task per link loops `recv::<Body<Value>>()` (+ `accept`) and reports every result on a
 //! channel; the harness injects ONE frame, waits for quiescence (paused clock) and looks at the channel.
@@ -20,7 +21,10 @@
 //!  * a continuation frame whose delivery-id / delivery-tag / message-format contradicts the first frame is
 //!    *reported as an error*: `recv` returns `Err`, or (permissive reading) the library closes the link /
 //!    session / connection with an error on the wire.  Any `Ok(delivery)` for such a delivery is a violation.
-//!    What the link does after that error is not judged (such a case always ends its connection).
+//!    The contradictory delivery ends with its last frame like any other: well-formed deliveries that the peer
+//!    sends behind it on the same link are messages like any other (exactly once, unchanged, at their last
+//!    frame) - unless the library chose to close the link, then they are not judged.  How often the error is
+//!    reported is not judged.  (Such a case always ends its connection.)
 //!  * only the message is compared; the delivery-id/tag/format reported in `Delivery` and the result of
 //!    `accept` are recorded but not judged (the statement does not speak about them).
 use crate::typed::gen_message;
@@ -175,8 +179,16 @@ pub enum Kind {
     /// `after` frames of the partition (all with more=true), then a transfer with aborted=true (carrying a
     /// junk payload if `junk`), then the same message as a normal delivery with the same partition
     Abort { after: u16, junk: bool },
-    /// continuation frame `frame` (>= 1) carries a different delivery-id (0) / delivery-tag (1) / message-format (2)
-    Contra { frame: u16, field: u8 },
+    /// continuation frame `frame` (>= 1) carries a different delivery-id (0) / delivery-tag (1) / message-format (2);
+    /// all frames of that delivery are sent, then `follow` says what the peer sends next on the same link:
+    /// 0 nothing, 1 a well-formed 1-frame delivery, 2 a well-formed 2-frame delivery, 3 a 2-frame and then a
+    /// 1-frame delivery (other messages of the corpus than the contradictory one)
+    Contra {
+        frame: u16,
+        field: u8,
+        #[serde(default)]
+        follow: u8,
+    },
 }
 
 #[derive(Debug, Clone, PartialEq, Eq, Hash, Serialize, Deserialize)]
@@ -221,7 +233,7 @@ impl Case {
             Kind::Plain => part,
             Kind::Interleave { .. } => "interleaved".into(),
             Kind::Abort { .. } => "after-abort".into(),
-            Kind::Contra { frame, field } => format!(
+            Kind::Contra { frame, field, .. } => format!(
                 "field={} at={}",
                 ["delivery-id", "delivery-tag", "message-format"][*field as usize % 3],
                 if *frame as usize + 1 == self.nframes() { "last" } else { "middle" }
@@ -230,6 +242,13 @@ impl Case {
     }
     fn is_terminal(&self) -> bool {
         matches!(self.kind, Kind::Contra { .. })
+    }
+    /// number of well-formed deliveries that follow the contradictory one
+    fn followers(&self) -> usize {
+        match self.kind {
+            Kind::Contra { follow, .. } => [0, 1, 1, 2][follow as usize % 4],
+            _ => 0,
+        }
     }
 }
 
@@ -390,11 +409,15 @@ fn enumerate(corpus: &[Shape], quick: bool, deep: bool) -> Vec<Case> {
         for p in 0..=len {
             v.push(mk(mi, &all, if p % 2 == 0 { 0 } else { 7 }, Kind::Abort { after: p as u16, junk: p % 3 == 0 }));
         }
-        // (h) contradictory continuation fields: on the last frame of 2 frames, on the middle or the last of 3
+        // (h) contradictory continuation fields: on the last frame of 2 frames, on the middle or the last of 3;
+        // each x what the peer sends afterwards on the same link (nothing / a 1-frame delivery / a 2-frame
+        // delivery / two deliveries): the contradiction must not disturb what follows it
         for a in &all {
             for field in 0..3u8 {
                 for c in &two_conts {
-                    v.push(mk(mi, &[*a], *c, Kind::Contra { frame: 1, field }));
+                    for follow in 0..4u8 {
+                        v.push(mk(mi, &[*a], *c, Kind::Contra { frame: 1, field, follow }));
+                    }
                 }
             }
         }
@@ -402,15 +425,19 @@ fn enumerate(corpus: &[Shape], quick: bool, deep: bool) -> Vec<Case> {
             for b in &few[x + 1..] {
                 for frame in 1..=2u16 {
                     for field in 0..3u8 {
-                        v.push(mk(mi, &[*a, *b], if frame == 1 { 0 } else { 7 }, Kind::Contra { frame, field }));
+                        for follow in 0..4u8 {
+                            v.push(mk(mi, &[*a, *b], if (frame + follow as u16) % 2 == 1 { 0 } else { 7 }, Kind::Contra { frame, field, follow }));
+                        }
                     }
                 }
             }
         }
         // ... on an empty-payload frame (nothing to splice, still contradictory), and after an empty frame
         for field in 0..3u8 {
-            v.push(mk(mi, &[len], 0, Kind::Contra { frame: 1, field }));
-            v.push(mk(mi, &[len / 2, len / 2], 7, Kind::Contra { frame: 2, field }));
+            for follow in 0..4u8 {
+                v.push(mk(mi, &[len], 0, Kind::Contra { frame: 1, field, follow }));
+                v.push(mk(mi, &[len / 2, len / 2], 7, Kind::Contra { frame: 2, field, follow }));
+            }
         }
     }
     v
@@ -556,7 +583,7 @@ fn build_unit(corpus: &[Shape], case: &Case, ids: &mut Ids) -> Vec<Fr> {
             first.extend(delivery(corpus, 0, msg, &case.cuts, case.cont, case.settled, ids));
             first
         }
-        Kind::Contra { frame, field } => {
+        Kind::Contra { frame, field, follow } => {
             let mut d = delivery(corpus, 0, msg, &case.cuts, case.cont, case.settled, ids);
             let f = (*frame as usize).clamp(1, d.len().max(2) - 1).min(d.len() - 1);
             let first_id = d[0].t.delivery_id.unwrap();
@@ -568,6 +595,20 @@ fn build_unit(corpus: &[Shape], case: &Case, ids: &mut Ids) -> Vec<Fr> {
             }
             for x in d.iter_mut() {
                 x.done = None;
+            }
+            // the well-formed deliveries behind it: other messages than the contradictory one, so that a
+            // message made of both is never equal to an expected one
+            let n = corpus.len();
+            let (m1, m2) = ((msg + 1) % n, (msg + 2) % n);
+            let half = |m: usize| (corpus[m].bytes.len() / 2) as u16;
+            match follow % 4 {
+                0 => {}
+                1 => d.extend(delivery(corpus, 0, m1, &[], case.cont, case.settled, ids)),
+                2 => d.extend(delivery(corpus, 0, m1, &[half(m1)], case.cont, case.settled, ids)),
+                _ => {
+                    d.extend(delivery(corpus, 0, m1, &[half(m1)], case.cont, case.settled, ids));
+                    d.extend(delivery(corpus, 0, m2, &[], case.cont, case.settled, ids));
+                }
             }
             d
         }
@@ -614,6 +655,10 @@ pub struct BatchObs {
     pub multi_frame_received: u64,
     pub deliveries_received: u64,
     pub early_checks: u64,
+    /// well-formed deliveries sent behind a contradictory one on the same link and received intact
+    pub after_contra_received: u64,
+    /// ... and not judged because the library had closed the link with an error
+    pub after_contra_not_judged: u64,
     /// how contradictory deliveries were reported: RecvError variant (or wire:<frame>) -> count
     pub contra_reports: BTreeMap<String, u64>,
     pub accept_errors: Vec<String>,
@@ -745,6 +790,13 @@ pub async fn scenario(corpus: Arc<Vec<Shape>>, cases: Vec<Case>, mode: Mode, wan
         let mark = peer.trace.len();
         let frames = build_unit(&corpus, case, &mut ids);
         let contra = case.is_terminal();
+        // a contradictory unit = the frames of the contradictory delivery (judged as such), then the frames of
+        // the well-formed deliveries behind it (judged like any other delivery - as long as the library has
+        // left the link attached: reporting the contradiction by closing link/session/connection is allowed)
+        let contra_frames = if contra { case.nframes() } else { 0 };
+        let followers = case.followers();
+        let fam_after = if contra { format!("after-contradiction {fam}") } else { fam.clone() };
+        let mut link_gone = false;
         // frames of the delivery currently open on each link (to count real multi-frame deliveries)
         let mut open_frames: [usize; 2] = [0, 0];
         let mut cur_id: [u32; 2] = [0, 0];
@@ -755,6 +807,7 @@ pub async fn scenario(corpus: Arc<Vec<Shape>>, cases: Vec<Case>, mode: Mode, wan
         let nframes = frames.len();
         let abort_idx = frames.iter().position(|f| f.t.aborted);
         for (fi, fr) in frames.into_iter().enumerate() {
+            let in_contra = fi < contra_frames;
             if open_frames[fr.link] == 0 {
                 if let Some(id) = fr.t.delivery_id {
                     cur_id[fr.link] = id;
@@ -771,16 +824,28 @@ pub async fn scenario(corpus: Arc<Vec<Shape>>, cases: Vec<Case>, mode: Mode, wan
             }
             peer.send_perf(ch, Performative::Transfer(fr.t), &fr.payload);
             obs.frames_sent += 1;
+            if fi + 1 == contra_frames {
+                // that was the last frame of the contradictory delivery
+                open_frames[flink] = 0;
+            }
             if mode == Mode::Burst && fi + 1 < nframes {
                 continue;
             }
             tokio::time::sleep(Duration::from_millis(1)).await;
+            if contra && fi + 1 >= contra_frames && followers > 0 {
+                peer.pump();
+                if wire_error_report(&peer.trace[mark..]).is_some() {
+                    // the library reported the contradiction by closing the link (or more): the deliveries
+                    // behind it have nowhere to go, they are not judged
+                    link_gone = true;
+                }
+            }
             let got: Vec<Ev> = events.try_iter().collect();
             let mut oks: Vec<(usize, Box<Msg>)> = vec![];
             for ev in got {
                 match ev {
                     Ev::Ok { link, msg, id, tag, fmt } => {
-                        if !contra {
+                        if !in_contra {
                             let want_tag_ok = tag.starts_with(b"t");
                             if id != cur_id[link] || !want_tag_ok || fmt != Some(0) {
                                 if obs.info_mismatch.len() < 5 {
@@ -808,7 +873,7 @@ pub async fn scenario(corpus: Arc<Vec<Shape>>, cases: Vec<Case>, mode: Mode, wan
                     }
                 }
             }
-            if contra {
+            if in_contra {
                 if let Some((link, m)) = oks.first() {
                     fail = Some((
                         format!("contradictory-accepted {fam}"),
@@ -819,7 +884,11 @@ pub async fn scenario(corpus: Arc<Vec<Shape>>, cases: Vec<Case>, mode: Mode, wan
                         ),
                     ));
                 }
+            } else if link_gone {
+                obs.after_contra_not_judged += pending_expect.len() as u64;
+                break;
             } else if fail.is_none() {
+                let fam = &fam_after;
                 // expected completions at this quiescent point (Step: at most one; Burst: all of the case)
                 let want = std::mem::take(&mut pending_expect);
                 if mode == Mode::Step && want.is_empty() && !oks.is_empty() {
@@ -852,6 +921,9 @@ pub async fn scenario(corpus: Arc<Vec<Shape>>, cases: Vec<Case>, mode: Mode, wan
                                 if wn >= 2 {
                                     obs.multi_frame_received += 1;
                                 }
+                                if contra {
+                                    obs.after_contra_received += 1;
+                                }
                                 if normalise((*m).clone()) != corpus[wm].expected {
                                     fail = Some((
                                         format!("message-changed {fam}"),
@@ -879,13 +951,7 @@ pub async fn scenario(corpus: Arc<Vec<Shape>>, cases: Vec<Case>, mode: Mode, wan
             // permissive reading: the error may be reported by closing the link/session/connection with an error
             tokio::time::sleep(Duration::from_millis(1)).await;
             peer.pump();
-            let wire = peer.trace[mark..].iter().find_map(|w| match (&w.body, w.dir) {
-                (WBody::Perf(Performative::Detach(d)), Dirn::FromLib) if d.error.is_some() => Some("wire:detach"),
-                (WBody::Perf(Performative::End(d)), Dirn::FromLib) if d.error.is_some() => Some("wire:end"),
-                (WBody::Perf(Performative::Close(d)), Dirn::FromLib) if d.error.is_some() => Some("wire:close"),
-                _ => None,
-            });
-            match wire {
+            match wire_error_report(&peer.trace[mark..]) {
                 Some(wr) => *obs.contra_reports.entry(wr.to_string()).or_insert(0) += 1,
                 None => {
                     fail = Some((
@@ -929,6 +995,17 @@ pub async fn scenario(corpus: Arc<Vec<Shape>>, cases: Vec<Case>, mode: Mode, wan
     drop(sess);
     drop(conn);
     obs
+}
+
+/// the library closed the link / session / connection with an error (the permissive way of reporting a
+/// contradictory delivery)
+fn wire_error_report(trace: &[vlib::peer::WFrame]) -> Option<&'static str> {
+    trace.iter().find_map(|w| match (&w.body, w.dir) {
+        (WBody::Perf(Performative::Detach(d)), Dirn::FromLib) if d.error.is_some() => Some("wire:detach"),
+        (WBody::Perf(Performative::End(d)), Dirn::FromLib) if d.error.is_some() => Some("wire:end"),
+        (WBody::Perf(Performative::Close(d)), Dirn::FromLib) if d.error.is_some() => Some("wire:close"),
+        _ => None,
+    })
 }
 
 fn clip(s: String) -> String {
@@ -1025,6 +1102,8 @@ struct Tally {
     multi_frame_received: u64,
     deliveries_received: u64,
     early_checks: u64,
+    after_contra_received: u64,
+    after_contra_not_judged: u64,
     contra_reports: BTreeMap<String, u64>,
     accept_errors: Vec<String>,
     info_mismatch: Vec<String>,
@@ -1041,6 +1120,8 @@ impl Tally {
         self.multi_frame_received += o.multi_frame_received;
         self.deliveries_received += o.deliveries_received;
         self.early_checks += o.early_checks;
+        self.after_contra_received += o.after_contra_received;
+        self.after_contra_not_judged += o.after_contra_not_judged;
         for (k, v) in &o.contra_reports {
             *self.contra_reports.entry(k.clone()).or_insert(0) += v;
         }
@@ -1220,7 +1301,8 @@ pub fn run(ctx: &Ctx) -> Outcome {
             Kind::Plain => c.family(s.bytes.len()),
             Kind::Interleave { .. } => "interleaved".into(),
             Kind::Abort { .. } => "abort".into(),
-            Kind::Contra { .. } => "contradictory".into(),
+            Kind::Contra { follow: 0, .. } => "contradictory".into(),
+            Kind::Contra { .. } => "contradictory+following-deliveries".into(),
         };
         *fam.entry(key).or_insert(0) += 1;
         if c.cuts.len() <= 3 {
@@ -1233,10 +1315,11 @@ pub fn run(ctx: &Ctx) -> Outcome {
         }
     }
     // Step mode for everything; Burst mode (all frames of a case in one write) for the plain and interleaved
-    // partitions of <= 3 frames with continuation choices 0 and 7
+    // partitions of <= 3 frames with continuation choices 0 and 7, and for the contradictory deliveries that
+    // are followed by well-formed ones
     let burst: Vec<Case> = cases
         .iter()
-        .filter(|c| !c.is_terminal() && (1..=2).contains(&c.cuts.len()) && (c.cont == 0 || c.cont == 7))
+        .filter(|c| (!c.is_terminal() || c.followers() > 0) && (1..=2).contains(&c.cuts.len()) && (c.cont == 0 || c.cont == 7))
         .cloned()
         .collect();
     let burst_n = burst.len() as u64;
@@ -1266,6 +1349,8 @@ pub fn run(ctx: &Ctx) -> Outcome {
         total.multi_frame_received += t.multi_frame_received;
         total.deliveries_received += t.deliveries_received;
         total.early_checks += t.early_checks;
+        total.after_contra_received += t.after_contra_received;
+        total.after_contra_not_judged += t.after_contra_not_judged;
         total.skipped += t.skipped;
         for (k, v) in t.contra_reports {
             *total.contra_reports.entry(k).or_insert(0) += v;
@@ -1318,7 +1403,8 @@ pub fn run(ctx: &Ctx) -> Outcome {
     for c in [
         mk(0, &[a, b], 0, Kind::Plain),
         mk(0, &[b], 2, Kind::Abort { after: 1, junk: true }),
-        mk(0, &[b], 7, Kind::Contra { frame: 1, field: 1 }),
+        mk(0, &[b], 7, Kind::Contra { frame: 1, field: 1, follow: 0 }),
+        mk(0, &[a, b], 0, Kind::Contra { frame: 2, field: 0, follow: 3 }),
         mk(big as usize, &[7, 9], 0, Kind::Interleave { i: 1, j: 2 }),
     ] {
         let r = run_batch(&sample_corpus, &[c.clone()], Mode::Step, true);
@@ -1349,6 +1435,8 @@ pub fn run(ctx: &Ctx) -> Outcome {
     out.set("cases_with_cut_inside_section_header", cut_in_header);
     out.set("cases_with_cut_inside_length_field", cut_in_length);
     out.set("contradictions_reported_as", json!(total.contra_reports));
+    out.set("deliveries_received_intact_after_a_contradictory_one", total.after_contra_received);
+    out.set("deliveries_after_a_contradictory_one_not_judged_link_closed", total.after_contra_not_judged);
     out.set("accept_errors_not_judged", json!(total.accept_errors));
     out.set("delivery_info_mismatches_not_judged", json!(total.info_mismatch));
     out.set(
@@ -1360,7 +1448,7 @@ pub fn run(ctx: &Ctx) -> Outcome {
     out.set(
         "bound",
         format!(
-            "{} message shapes of {}..{} encoded bytes ({}); per shape: 1 frame; 2 frames at every offset x 8 continuation-field choices (+ pre-settled x 2); 3 frames at all pairs of offsets x 8 choices{}; the all-1-byte partition x 8; an empty frame at every position of every 1-/2-frame partition and of 3-frame partitions at {} offsets; the second link's 2-frame delivery at every position of every 2-frame partition (x 8 choices) and of the 3-frame partitions at {} offsets; abort at every position (with/without junk payload) of every 2-frame partition (x 8 choices), of the 3-frame partitions at {} offsets and at every position of the all-1-byte partition; contradictory delivery-id/tag/format on the last frame of every 2-frame partition, on the middle/last frame of a few 3-frame ones and on an empty frame; everything frame-by-frame, the 2-/3-frame non-contradictory cases also as one burst{}",
+            "{} message shapes of {}..{} encoded bytes ({}); per shape: 1 frame; 2 frames at every offset x 8 continuation-field choices (+ pre-settled x 2); 3 frames at all pairs of offsets x 8 choices{}; the all-1-byte partition x 8; an empty frame at every position of every 1-/2-frame partition and of 3-frame partitions at {} offsets; the second link's 2-frame delivery at every position of every 2-frame partition (x 8 choices) and of the 3-frame partitions at {} offsets; abort at every position (with/without junk payload) of every 2-frame partition (x 8 choices), of the 3-frame partitions at {} offsets and at every position of the all-1-byte partition; contradictory delivery-id/tag/format on the last frame of every 2-frame partition, on the middle/last frame of a few 3-frame ones and on an empty frame, each followed on the same link by nothing / a 1-frame delivery / a 2-frame delivery / a 2-frame and a 1-frame delivery; everything frame-by-frame, the 2-/3-frame non-contradictory cases and the contradictory ones with followers also as one burst{}",
             nshapes,
             corpus.iter().take(nshapes).map(|s| s.bytes.len()).min().unwrap_or(0),
             corpus.iter().take(nshapes).map(|s| s.bytes.len()).max().unwrap_or(0),
@@ -1379,7 +1467,7 @@ pub fn run(ctx: &Ctx) -> Outcome {
     out.assume("the scripted peer injects a frame only at quiescent points (frame-by-frame mode) or all frames of one case in one write (burst mode); transport-level chunking of the byte stream is C06's subject");
     out.assume("one application task per link loops recv::<Body<Value>>() and accept(); link credit (100000) and the session's incoming window never run out");
     out.assume("only the message returned by recv is judged; Delivery's id/tag/format and accept() results are recorded in the evidence but not judged");
-    out.assume("after a contradictory continuation frame the peer sends the remaining frames of the case and the application keeps calling recv() (up to 3 more errors): nothing may come back as a message; then the case ends its connection");
+    out.assume("after a contradictory continuation frame the peer sends the remaining frames of that delivery and the application keeps calling recv() (up to 3 more errors): nothing of it may come back as a message; the well-formed deliveries the peer sends behind it on the same link are judged like any other delivery (exactly once, unchanged, at their last frame) unless the library has closed the link/session/connection with an error, which also counts as reporting; then the case ends its connection");
     out
 }
 
